@@ -123,7 +123,12 @@ class Fixpoint(Base):
     def bt_exit(self, args, ok, where):
         if ok and where == "search":
             t = int(args[3][0])
-            self.owed = set(self.stale_at_level.get(t, ()))
+            # the state restored at level t was copied from the result of the last pass that ended at or below t (a value
+            # heuristic may push two levels from one pass result): the re-runs owed there are owed here
+            for k in [k for k in self.stale_at_level if k > t]:
+                del self.stale_at_level[k]
+            below = [k for k in self.stale_at_level if k <= t]
+            self.owed = set(self.stale_at_level[max(below)]) if below else set()
 
     def pop(self, triggered, prev, r):
         if r != -1:
@@ -250,6 +255,8 @@ class Fixpoint(Base):
                           constraint=name, queued=bool(queue[p]), last=(p == self.last_prop),
                           owed=bool((p in self.owed) and not queue[p]))
         if not inner:
+            for k in [k for k in self.stale_at_level if k > top]:
+                del self.stale_at_level[k]
             self.stale_at_level[top] = set(int(i) for i in np.nonzero(queue)[0]) | set(self.owed)
         for (sp, mover, sd, sev) in ent.get("suspects", []):
             self._targeted_schedule(args, ent, sp, mover, sd, sev)
